@@ -1205,6 +1205,70 @@ fn api_cmd(args: &[String]) {
         let c = Case { font: name, text, feats, dir: if r.chance(1, 4) { Direction::RightToLeft } else { Direction::LeftToRight }, level: r.below(3) as u8 };
         check_case(face, fd, &c, &mut st);
     }
+    // ---- T3: a font with a default-on `rand` feature (random alternate of glyph 1, lower lookup index) next to ordinary
+    //      alternate features on other glyphs: the value of `aalt` / `salt` selects the alternate - also the values 254,
+    //      255 (the value `rand` itself uses to ask for a random pick) and 256
+    {
+        let feats_e = vec![
+            Feat { tag: *b"rand", kind: Kind::Alt { glyphs: vec![1], firsts: vec![100], count: 3 } },
+            Feat { tag: *b"aalt", kind: Kind::Alt { glyphs: vec![2], firsts: vec![200], count: 4 } },
+            Feat { tag: *b"salt", kind: Kind::Alt { glyphs: vec![3], firsts: vec![300], count: 256 } },
+        ];
+        let de = build_font(3, 600, &feats_e);
+        let face_e = Face::from_slice(&de, 0).expect("font E parses");
+        let det = &feats_e[1..]; // what the oracle predicts: everything but the random feature
+        for v in [0u32, 1, 2, 4, 5, 254, 255] {
+            for (tagname, ranged) in [("aalt", false), ("aalt", true), ("salt", false), ("salt", true)] {
+                for order in 0..3u32 {
+                    let text: Vec<(u32, u32)> = match order { 0 => vec![(0, 0), (1, 1), (2, 2), (1, 3)], 1 => vec![(1, 0), (2, 1), (0, 2), (2, 3)], _ => vec![(2, 0), (1, 1), (1, 2), (0, 3)] };
+                    let mut feats = vec![Feature { tag: Tag::from_bytes(&tag4(tagname)), value: v, start: if ranged { 1 } else { 0 }, end: if ranged { 3 } else { u32::MAX } }];
+                    if order == 2 {
+                        feats.push(Feature { tag: Tag::from_bytes(b"rand"), value: 1, start: 0, end: u32::MAX });
+                    }
+                    let c = Case { font: "E", text, feats, dir: Direction::LeftToRight, level: 0 };
+                    st.evals += 1;
+                    let out = match catch(std::panic::AssertUnwindSafe(|| shape_case(&face_e, &c))) {
+                        Ok(o) => o,
+                        Err(e) => {
+                            st.bad += 1;
+                            println!("fail kind=shape-panic:{} {}", e, fmt_case(&c));
+                            continue;
+                        }
+                    };
+                    if out.len() != c.text.len() {
+                        st.bad += 1;
+                        println!("fail kind=glyph-count {} got={:?}", fmt_case(&c), out);
+                        continue;
+                    }
+                    let mut nontrivial = false;
+                    for (i, (g, k)) in c.text.iter().enumerate() {
+                        let o = out[i];
+                        if *g == 0 {
+                            // the glyph the random feature acts on: one of its alternates or itself
+                            if ![1u32, 100, 101, 102].contains(&o.0) {
+                                st.bad += 1;
+                                println!("fail kind=random-alternate-outside-its-set {} at={} got=gid{}", fmt_case(&c), i, o.0);
+                                break;
+                            }
+                            continue;
+                        }
+                        let (eg, _) = expected(det, &c.feats, *g as u16 + 1, *k, &|_| true);
+                        if eg != *g + 1 {
+                            nontrivial = true;
+                        }
+                        if o.0 != eg || o.1 != *k {
+                            st.bad += 1;
+                            println!("fail kind=range-value-predicate {} at={} cluster={} expected=gid{} got=gid{}@{}", fmt_case(&c), i, k, eg, o.0, o.1);
+                            break;
+                        }
+                    }
+                    if nontrivial {
+                        st.nontrivial += 1;
+                    }
+                }
+            }
+        }
+    }
     println!("api-summary evaluations={} nontrivial={} bad={} t1={} t2={}", st.evals, st.nontrivial, st.bad, t1, st.evals - t1);
 }
 
